@@ -460,9 +460,10 @@ def property_failures(script, real):
                 m, n, a, b = axes[d]
                 sl = SLACK * max(1.0, abs(a), abs(b))
                 if not noisy:
-                    bad = [v for v in col if not (a - sl <= v <= b + sl)]
+                    # the closed requested domain: the interval between the two bounds, whichever is larger
+                    bad = [v for v in col if not (min(a, b) - sl <= v <= max(a, b) + sl)]
                     if bad:
-                        fails.append(f'call {ci} dim {d} ({m}): {bad[0]!r} outside [{a}, {b}]')
+                        fails.append(f'call {ci} dim {d} ({m}): {bad[0]!r} outside [{min(a, b)}, {max(a, b)}]')
                 if grid and len(col) == size:
                     base = (script.get('base') or [10.0] * dims)[d] if c == 'nd' else 10.0
                     nodes = doc_nodes(m, n, a, b, float(base))
@@ -475,12 +476,12 @@ def property_failures(script, real):
                 if m == 'latin-hypercube' and len(col) == size:
                     w = (b - a) / n
                     # the distinct axis values, in product order: take entry of each node index
-                    vals = sorted(col[(i * strides[d])] for i in range(n)) if c != 'g1' else sorted(col)
+                    vals = sorted((col[(i * strides[d])] for i in range(n)) if c != 'g1' else col, reverse=w < 0)
                     rep_ok = all(col[p] == col[((p // strides[d]) % n) * strides[d]] for p in range(size)) if c != 'g1' else True
                     if not rep_ok:
                         fails.append(f'call {ci} dim {d}: latin-hypercube grid is not a tensor product of its axis sample')
                     for k, v in enumerate(vals):
-                        if not (a + k * w - sl <= v <= a + (k + 1) * w + sl):
+                        if not (min(a + k * w, a + (k + 1) * w) - sl <= v <= max(a + k * w, a + (k + 1) * w) + sl):
                             fails.append(f'call {ci} dim {d}: latin-hypercube stratum {k} = [{a + k * w}, {a + (k + 1) * w}] does not hold exactly one point (sorted sample {vals[:6]}…)')
                             break
             if prev is not None and len(prev[d]) == len(col):
@@ -518,6 +519,10 @@ def probe_script(c, m):
 
 BOUNDS = [(0.0, 1.0), (-2.5, -0.5), (-1.5, 3.25)]
 POS_BOUNDS = [(0.5, 20.0), (1e-3, 1e2), (2.0, 3.0)]
+# reversed bounds (the "lower" bound above the "upper" one): only for the deterministic node families, whose documented
+# formulas are symmetric in the two bounds; the noisy methods derive a noise scale from (max - min) and reject them
+REV_BOUNDS = [(1.0, 0.0), (2.75, -1.25)]
+REV_POS_BOUNDS = [(20.0, 0.5), (3.0, 2.0)]
 
 
 def pick_bounds(rng, method, k, exp_ok=True):
@@ -605,6 +610,23 @@ def scripts(tier, seed, accepted):
                         s['base'] = [rng.choice([2, 10, 2.718281828459045, 3.5]) for _ in range(k)]
                     if rng.random() < 0.2:
                         s['noise'] = [rng.uniform(0.01, 0.5) for _ in range(k)]
+                    out.append(s)
+    # reversed bounds for the deterministic methods
+    for c, k in (('g1', 1), ('g2', 2), ('g3', 3), ('nd', 2)):
+        for m in accepted[c]:
+            if m not in FIXED_NAMES:
+                continue
+            for bi, n in enumerate([max(2, min_n(m)), 5]):
+                rb = (REV_POS_BOUNDS if m in LOGM else REV_BOUNDS)[bi]
+                fb = (POS_BOUNDS if m in LOGM else BOUNDS)[bi]
+                if c == 'g1':
+                    out.append(dict(cls='g1', method=m, n=n, a=rb[0], b=rb[1], noise=None, ncalls=2))
+                else:
+                    bs = [rb] + [fb if j % 2 else rb for j in range(1, k)]
+                    s = dict(cls=c, method=m if c != 'nd' else '+'.join([m] * k), grid=[n] + [3] * (k - 1), mins=[x[0] for x in bs],
+                             maxs=[x[1] for x in bs], ncalls=2)
+                    if c == 'nd':
+                        s.update(methods=[m] * k, noisy=False)
                     out.append(s)
     for m in accepted['sph']:
         for n in sizes:
